@@ -6,6 +6,7 @@
    parsing (txscript.PushedData / GetScriptClass) is data carried by the transactions.
    Model: Bloom/BloomTx.v; vocabulary (matches_spec, filter_before, Rel, ...): Bloom/BloomTxSpec.v. *)
 From BU Require Import Lib.Bytes Bloom.BloomTx Bloom.BloomTxSpec Bloom.BloomTxProofs Bloom.BloomTxScanProofs Bloom.BloomTxInst.
+From BU Require Import Bloom.Murmur3 Bloom.Bloom Bloom.BloomTxBloom.
 From Coq Require Import Permutation.
 
 Section C10.
@@ -133,6 +134,50 @@ Print Assumptions C10_scan_complete_hot.
 Print Assumptions C10_scan_cost.
 Print Assumptions C10_scan_exact_without_false_positives.
 Print Assumptions C10_match_unloaded.
+
+(* ---- review round 2: the theorems above for bloom/filter.go's OWN filter (the C09 model Bloom/Bloom.v), not only
+   for "any filter satisfying the laws".  State = a loaded filter whose array is shorter than 2^29 bytes (implied by
+   the wire limit; closed under add); contains = Bloom.matches, insert = Bloom.add, ids = the 32 bytes as stored,
+   outpoints = Bloom.outpoint_bytes (txid ++ LE32 index), update flag = the loaded message's flag byte. *)
+Theorem C10_bloom_model_satisfies_laws : filter_laws lf_contains lf_insert.
+Proof. exact bloom_filter_laws. Qed.
+Print Assumptions C10_bloom_model_satisfies_laws.
+
+Theorem C10_bloom_insert_is_add : forall s x,
+  lf_filter (lf_insert s x) = add (lf_filter s) x /\ m_flags (lf_msg (lf_insert s x)) = m_flags (lf_msg s).
+Proof. exact (fun s x => conj (lf_insert_is_add s x) (lf_insert_flags s x)). Qed.
+Print Assumptions C10_bloom_insert_is_add.
+
+Theorem C10_bloom_scan_terminates : forall s txs, exists st, bloom_scan s txs = Some st.
+Proof. exact bloom_scan_terminates. Qed.
+Print Assumptions C10_bloom_scan_terminates.
+
+Theorem C10_bloom_scan_sound : forall s txs st,
+  bloom_scan s txs = Some st ->
+  le_f lf_contains s (s_f st) /\ NoDup (s_matched st) /\
+  forall i, In i (s_matched st) ->
+    exists t, nth_error txs i = Some t /\ matches_spec lf_contains b_id_item b_op_item (s_f st) t.
+Proof. exact bloom_scan_sound. Qed.
+Print Assumptions C10_bloom_scan_sound.
+
+Theorem C10_bloom_scan_complete : forall s txs txs' st',
+  Permutation txs txs' -> bloom_scan s txs' = Some st' ->
+  forall t, Rel lf_contains b_id_item b_op_item (uflag_of (m_flags (lf_msg s))) s txs t ->
+  forall k, nth_error txs' k = Some t -> In k (s_matched st').
+Proof. exact bloom_scan_complete. Qed.
+Print Assumptions C10_bloom_scan_complete.
+
+(* the unloaded filter (msgFilterLoad == nil) over the C09 operations themselves *)
+Theorem C10_bloom_match_unloaded : forall fl (t : tx (list N) (list N)),
+  match_tx_update matches add b_id_item b_op_item fl None t = (false, None).
+Proof. exact bloom_match_unloaded. Qed.
+Print Assumptions C10_bloom_match_unloaded.
+
+(* a worked block on the real hashing: D spends P:0 and precedes P; both reported; P:0 ends up in the filter *)
+Example C10_bloom_example :
+  option_map (fun st => (s_matched st, lf_contains (s_f st) (outpoint_bytes ex_pid 0), lf_contains ex_filter (outpoint_bytes ex_pid 0)))
+             (bloom_scan ex_filter [ex_D; ex_P]) = Some ([0; 1]%nat, true, false).
+Proof. exact bloom_scan_example. Qed.
 
 (* The algorithm as it was before the repair (verbatim copy: no "already matched" test)
    violates the cost bound: a six-transaction chain in reverse order needs 120 matches. *)
